@@ -330,7 +330,7 @@ func (ch *channel) receivedSegData(rsd recSegData) {
 			for i := uint32(0); i < sdb.nrItems(); i++ {
 				if name == ch.masterTrName && ch.masterSegDuration == 0 {
 					// Evaluate the first two durations to see if they are consecutive with same duration. If not, drop the oldest one.
-					if sdb.items[1].seqNr != sdb.items[0].seqNr+1 || sdb.items[1].dur != sdb.items[0].dur {
+					if sdb.items[1].seqNr != sdb.items[0].seqNr+1 || sdb.items[1].dur != sdb.items[0].dur || sdb.items[1].dur == 0 {
 						ch.segTimesGen.dropSeqNr(sdb.items[0].seqNr)
 						return
 					}
@@ -505,6 +505,9 @@ func (ch *channel) deriveAndSetBitrates() {
 				totDur += uint64(sdb.items[i].dur)
 				totSize += uint64(sdb.items[i].totSize)
 			}
+			if totDur == 0 {
+				continue
+			}
 			bitrate := uint32(totSize * 8 * uint64(timeScale) / totDur)
 		repLoop:
 			for _, asSet := range ch.mpd.Periods[0].AdaptationSets {
@@ -539,6 +542,10 @@ func (ch *channel) deriveAndSetFrameRates(log *slog.Logger) {
 		}
 		prod := nrFrames * timeScale
 		frCGD := GCDuint32(prod, dur)
+		if frCGD == 0 {
+			log.Warn("Cannot derive frame rate since no samples or duration", "trName", name)
+			continue
+		}
 		nom := prod / frCGD
 		denom := dur / frCGD
 	repLoop:
